@@ -69,6 +69,7 @@ FIELD_CLASSES = {
 
 # (class, attr) specific overrides
 FIELD_CLASSES_BY_CLASS = {
+    ("AuxData", "_lazy_container"): "_LazyDataContainer",
     ("Section", "_interval_index"): ("LazyIntervalTree", "ByteInterval"),
     ("ByteInterval", "_interval_tree"): ("LazyIntervalTree", "ByteBlock"),
     ("Section._ByteIntervalSet", "_node"): "Section",
@@ -94,7 +95,11 @@ class Schema:
         self._ids["$Graph"] = 901
         from .nxmodel import NxModel
         self.nx = NxModel()
-        self.axioms = in_range_axioms()
+        from .iomodel import IoModel, axioms as io_axioms
+        from .pbmodel import PbModel
+        self.io = IoModel()
+        self.pb = PbModel()
+        self.axioms = in_range_axioms()      # (the byte-string axioms of iomodel are added per contract: IoContract)
 
     # ----------------------------------------------------------- classes
     def class_id(self, qual):
@@ -162,6 +167,12 @@ class Schema:
         from .nxmodel import GSORTS
         if key in GSORTS:
             return GSORTS[key]
+        if key == "$ir.loaded_from":
+            return z3.ArraySort(Int, Val)
+        if key.startswith("$stream.") or key.startswith("$unknown."):
+            return self.io.field_sort(key)
+        if key.startswith("pb.") or key.startswith("$pb."):
+            return self.pb.field_sort(key)
         base = key.split("#")[0]
         kind = None
         for (k, knd, _c) in FIELDS.values():
@@ -266,6 +277,17 @@ class Schema:
 
     # ----------------------------------------------------------- hooks with defaults
     def isinstance_special(self, eng, sv, clsname, st):
+        if clsname in ("bytes", "bytearray", "memoryview"):
+            if sv.k == "blob":
+                return z3.BoolVal(clsname == "bytes")
+            if sv.k == "bytes":
+                return z3.BoolVal(clsname in ("bytes", "bytearray"))
+            if sv.k in ("ref", "none", "int", "bool", "str", "uuid", "tuple", "set", "list", "dict"):
+                return z3.BoolVal(sv.k == "ref" and sv.cls == "UnknownData" and clsname == "bytes")
+            if sv.k == "val" and clsname == "bytes":
+                ci = eng.prog.find_class("UnknownData")
+                kd = z3.Select(eng.field_array(st, "$kind"), ref(sv.t))
+                return z3.Or(Val.is_VOpaque(sv.t), z3.And(is_VRef(sv.t), kd == self.class_id(ci.qual)) if ci else False)
         if clsname in NAMEDTUPLES:
             return z3.BoolVal(sv.cls == clsname)
         if clsname in ("Iterable", "typing.Iterable"):
@@ -290,8 +312,22 @@ class Schema:
         return None
 
     def get_attr_special(self, eng, obj, attr, st):
-        if obj.k in ("ref", "val") and obj.cls in ("$IntervalTree", "$Graph"):
+        if obj.k in ("ref", "val") and obj.cls in ("$IntervalTree", "$Graph", "$Stream"):
             return SV("boundbuiltin", x=(obj, attr))
+        if obj.k in ("ref", "val") and (obj.cls or "").startswith("pb:"):
+            return self.pb.get(eng, obj, attr, st)
+        if obj.k == "pbsub":
+            return self.pb.sub_get(eng, obj, attr, st)
+        if obj.k in ("pbrep", "pbmap", "blob"):
+            return SV("boundbuiltin", x=(obj, attr))
+        if obj.k in ("int", "bool") and attr == "to_bytes":
+            return SV("boundbuiltin", x=(obj, attr))
+        if attr == "bytes" and (obj.k == "uuid" or (obj.k == "val" and obj.cls in (None, "UUID"))):
+            from .iomodel import sv_blob, u2b
+            if obj.k == "val":
+                st.oblige("safety.is_uuid(.bytes)", Val.is_VUuid(obj.t))
+                return sv_blob(u2b(Val.uval(obj.t)))
+            return sv_blob(u2b(obj.t))
         if obj.k == "nx_keydict":
             return SV("boundbuiltin", x=(obj, attr))
         if obj.k == "tuple" and obj.cls in NAMEDTUPLES and attr in NAMEDTUPLES[obj.cls]:
@@ -315,15 +351,26 @@ class Schema:
             return SV("boundbuiltin", x=(SV("iv", obj.t), "length"))
         return None
 
+    def class_attr_special(self, eng, ci, attr, st):
+        if ci.qual == "AuxData" and attr == "serializer":
+            # the one Serialization instance of the process (closed world: the default codec table)
+            return SV("ref", z3.IntVal(-7), cls="Serialization")
+        return None
+
     def global_name(self, eng, n, st):
-        if n == "_EventType":
-            return None
+        if n == "PROTOBUF_VERSION":
+            # gtirb/version.py is generated from /repo/version.txt (VERSION_PROTOBUF) by the build
+            from .overlay import protobuf_version
+            return sv_int(z3.IntVal(protobuf_version()))
         return None
 
     def in_range(self, x, a, b, s):
         return InRange(x, a, b, s)
 
     def construct_special(self, eng, ci, args, kwargs, st):
+        if ci.qual == "UnknownData":
+            from .iomodel import as_blob
+            return self.io.new_unknown_data(eng, st, as_blob(eng, args[0], st, "UnknownData(...)"))
         if ci.qual in NAMEDTUPLES:
             names = NAMEDTUPLES[ci.qual]
             vals = list(args) + [None] * (len(names) - len(args))
@@ -357,6 +404,8 @@ class Schema:
             c = args[1]
             if c.k == "cls":
                 return sv_bool(eng.isinstance_(args[0], c.x.qual, st))
+            if c.k == "builtin" and "_pb2." in c.x:
+                return sv_bool(z3.BoolVal(args[0].cls == "pb:" + c.x.split(".")[-1]))
             if c.k == "builtin":
                 return sv_bool(eng.isinstance_(args[0], c.x.split(".")[-1], st))
             if c.k == "tuple":
@@ -499,6 +548,11 @@ class Schema:
             return SV("gen", x=res)
         if base == "auto":
             raise Unsupported("enum.auto outside class table")
+        if "_pb2." in name and name.split(".")[-1] in self.pb.msgs and not args and not kwargs:
+            return self.pb.new(eng, st, name.split(".")[-1])
+        r = self.io.call_builtin(eng, name, args, kwargs, st)
+        if r is not None:
+            return r
         raise Unsupported("builtin %s" % name)
 
     def len_(self, eng, a, st):
@@ -527,7 +581,7 @@ class Schema:
             ci = eng.prog.classes.get(a.cls) if a.cls else None
             if ci is not None and ci.lookup("__len__"):
                 return eng.call_method(a, ci, "__len__", [], {}, st)
-        if k == "str":
+        if k == "str" or k == "blob":
             return sv_int(z3.Length(a.t))
         if k == "nx_edgeview":
             E = self.nx.edges(eng, st, a.x[0])
@@ -553,6 +607,16 @@ class Schema:
     # ----------------------------------------------------------- methods of builtin-typed values
     def call_builtin_method(self, eng, obj, name, args, kwargs, st, node):
         k = obj.k
+        if k in ("ref", "val") and obj.cls == self.io.STREAM:
+            return self.io.stream_method(eng, obj, name, args, kwargs, st)
+        if (k in ("ref", "val") and (obj.cls or "").startswith("pb:")) or k in ("pbsub", "pbrep", "pbmap"):
+            return self.pb.method(eng, obj, name, args, kwargs, st)
+        if k == "blob":
+            return self.io.blob_method(eng, obj, name, args, kwargs, st)
+        if k in ("int", "bool") and name == "to_bytes":
+            return self.io.int_method(eng, obj, name, args, kwargs, st)
+        if k == "str" and name == "encode":
+            return self.io.str_method(eng, obj, name, args, kwargs, st)
         if k == "set":
             return self.set_method(eng, obj, name, args, st)
         if k == "dict":
